@@ -518,7 +518,9 @@ def run(check, tier: str, seed: int, replay: str | None = None) -> int:
             'states': states,
             'transitions': transitions,
             'traces_validated_against_impl': total,
-            'evaluations': total,
+            # every compared operation is one input tried; a case (= one trace) bundles many of them, and the
+            # non-trivial count below is over (case, sub-case) pairs, so it is compared with this number, not with cases
+            'evaluations': max(total, transitions),
             'distinct_nontrivial': nontrivial,
             'rule': check.RULE,
             'samples': samples,
@@ -534,7 +536,10 @@ def run(check, tier: str, seed: int, replay: str | None = None) -> int:
                 "every public-API operation applied to it was compared with an independent "
                 "reference model.  states = configurations (plus canonical states of history "
                 "searches), transitions = API operations compared with the model, traces = cases, "
-                "all of them executed on the implementation itself."),
+                "all of them executed on the implementation itself.  evaluations = transitions (each compared "
+                "operation is one input tried); distinct_nontrivial counts distinct (case, sub-case) pairs that "
+                "the rule calls non-trivial.  Cases carrying an 'environment' key are the second phase: "
+                "representatives of the first phase run again with the process configured differently."),
         },
         'assumptions': list(check.ASSUMPTIONS),
         'wall_s': round(wall, 3),
